@@ -5,7 +5,7 @@
    Conjuncts of the property that are NOT theorems here (they rest on the exact
    correspondence run and the dense oracle only) are listed at the end. *)
 From Coq Require Import List Arith Bool Ring.
-From Verif.C16 Require Import Model Proofs Proofs2.
+From Verif.C16 Require Import Model Model2 Proofs Proofs2 Proofs3.
 Import ListNotations.
 
 Section Props.
@@ -243,6 +243,67 @@ Theorem fastdiag_inverts : forall (fs : list (eigfac R)) (Us : list (operand R))
        (fun j => rmul (lap_ent R rO rI radd rmul fs i j) (aat R (fastdiag_apply R rO radd rmul Us dinv x) [j])) = aat R x [i].
 Proof. exact (fastdiag_inverts_l R rO rI radd rmul rsub ropp Rth). Qed.
 
+(* ------------------------------------------------------------------------------------------ *)
+(* BlockOperator transpose: the row bound of grid_block_transpose follows from wf_grid *)
+Theorem grid_block_transpose_full : forall grid hs ws x r, wf_grid R grid hs ws ->
+  base_block_matvec R rO radd rmul (map (placed_T R) (block_operator R grid hs ws)) x r =
+  mv R rO radd rmul (mT R (grid_dense R rO grid hs ws)) x r.
+Proof. exact (grid_block_transpose_full_l R rO rI radd rmul rsub ropp Rth). Qed.
+
+(* functools.reduce(np.kron, ops) (left-nested, Model2.kron_reduce) has the shape and, on its index
+   range, the entries of the right-nested Kronecker matrix kron_ent used by all theorems above *)
+Theorem kron_reduce_spec : forall ops,
+  mrows R (kron_reduce R rI rmul ops) = prodl (rowsl R ops) /\
+  mcols R (kron_reduce R rI rmul ops) = prodl (colsl R ops) /\
+  forall i j, i < prodl (rowsl R ops) -> j < prodl (colsl R ops) ->
+    ment R (kron_reduce R rI rmul ops) i j = kron_ent ops i j.
+Proof. exact (kron_reduce_spec_l R rO rI radd rmul rsub ropp Rth). Qed.
+
+(* the Kronecker-sum matrix  sum_d reduce(np.kron, [M_0,..,K_d,..,M_{dim-1}])  as the code's callers and
+   the docstring of fastdiag_solver write it equals the recursive form lap_ent ... *)
+Theorem lap_code_spec : forall fs, Forall (eig_ok R rO rI radd rmul) fs -> forall i j,
+  i < prodl (sizes R fs) -> j < prodl (sizes R fs) ->
+  fastdiag_lap_code R rO rI radd rmul (map (fK R) fs) (map (fM R) fs) i j = lap_ent R rO rI radd rmul fs i j.
+Proof. exact (lap_code_spec_l R rO rI radd rmul rsub ropp Rth). Qed.
+
+(* ... and diag of solvers.py:32-37, sum_d reduce(np.kron, [ones,..,lam_d,..,ones]), equals diag_ev *)
+Theorem diag_code_spec : forall fs c, c < prodl (sizes R fs) ->
+  fastdiag_diag_code R rO rI radd rmul (sizes R fs) (map (flam R) fs) c = diag_ev R rO radd fs c.
+Proof. exact (diag_code_spec_l R rO rI radd rmul rsub ropp Rth). Qed.
+
+(* fastdiag_solver for several right-hand sides (DiagonalOperator acts as diag[:,None] * x) *)
+Theorem fastdiag_inverts_multi : forall (fs : list (eigfac R)) (Us : list (operand R)) (dinv : nat -> R) (x : arr R) m,
+  Forall (eig_ok R rO rI radd rmul) fs -> omats Us = map (fU R) fs ->
+  (forall c, c < prodl (sizes R fs) -> rmul (diag_ev R rO radd fs c) (dinv c) = rI) ->
+  ashape R x = [prodl (sizes R fs); m] ->
+  forall i k, i < prodl (sizes R fs) -> k < m ->
+  sumn (prodl (sizes R fs))
+       (fun j => rmul (lap_ent R rO rI radd rmul fs i j) (aat R (fastdiag_apply_mat R rO radd rmul Us dinv x) [j; k])) = aat R x [i; k].
+Proof. exact (fastdiag_inverts_mat_l R rO rI radd rmul rsub ropp Rth). Qed.
+
+(* the same two theorems about the expressions the code builds (left-nested Kronecker sums) *)
+Theorem fastdiag_inverts_code : forall (fs : list (eigfac R)) (Us : list (operand R)) (dinv : nat -> R) (x : arr R),
+  Forall (eig_ok R rO rI radd rmul) fs -> omats Us = map (fU R) fs ->
+  (forall c, c < prodl (sizes R fs) ->
+     rmul (fastdiag_diag_code R rO rI radd rmul (sizes R fs) (map (flam R) fs) c) (dinv c) = rI) ->
+  ashape R x = [prodl (sizes R fs)] ->
+  forall i, i < prodl (sizes R fs) ->
+  sumn (prodl (sizes R fs))
+       (fun j => rmul (fastdiag_lap_code R rO rI radd rmul (map (fK R) fs) (map (fM R) fs) i j)
+                      (aat R (fastdiag_apply R rO radd rmul Us dinv x) [j])) = aat R x [i].
+Proof. exact (fastdiag_inverts_code_l R rO rI radd rmul rsub ropp Rth). Qed.
+
+Theorem fastdiag_inverts_code_multi : forall (fs : list (eigfac R)) (Us : list (operand R)) (dinv : nat -> R) (x : arr R) m,
+  Forall (eig_ok R rO rI radd rmul) fs -> omats Us = map (fU R) fs ->
+  (forall c, c < prodl (sizes R fs) ->
+     rmul (fastdiag_diag_code R rO rI radd rmul (sizes R fs) (map (flam R) fs) c) (dinv c) = rI) ->
+  ashape R x = [prodl (sizes R fs); m] ->
+  forall i k, i < prodl (sizes R fs) -> k < m ->
+  sumn (prodl (sizes R fs))
+       (fun j => rmul (fastdiag_lap_code R rO rI radd rmul (map (fK R) fs) (map (fM R) fs) i j)
+                      (aat R (fastdiag_apply_mat R rO radd rmul Us dinv x) [j; k])) = aat R x [i; k].
+Proof. exact (fastdiag_inverts_code_mat_l R rO rI radd rmul rsub ropp Rth). Qed.
+
 End Props.
 
 Print Assumptions apply_tprod_spec.
@@ -277,14 +338,21 @@ Print Assumptions kron_solver_inverts.
 Print Assumptions kron_solver_inverts_multi.
 Print Assumptions fastdiag_inverts.
 
+Print Assumptions grid_block_transpose_full.
+Print Assumptions kron_reduce_spec.
+Print Assumptions lap_code_spec.
+Print Assumptions diag_code_spec.
+Print Assumptions fastdiag_inverts_multi.
+Print Assumptions fastdiag_inverts_code.
+Print Assumptions fastdiag_inverts_code_multi.
+
 (* NOT PROVED:
-   - fastdiag_inverts for several right-hand sides (the vector statement applied per column; the
-     composition l_op * DiagonalOperator * r_op is modelled for vectors only);
-   - the eigenvalue sum of solvers.py:32-37 (sum over d of the left-nested np.kron of vectors) equals
-     its recursive form diag_ev, and sum_d reduce(np.kron, [M..K_d..M]) equals lap_ent: both are
-     taken in recursive form in fastdiag_inverts;
-   - (M U) U^T = I is assumed in that form; eigh returns U^T M U = I, equivalent for square matrices
-     over a field (not derived here, R is only a commutative ring);
+   - (M U) U^T = I is assumed in that form (eig_ok); eigh returns U^T M U = I, which is equivalent for square
+     matrices over a field (left inverse = right inverse); this is not derived here (R is a commutative
+     ring; the derivation needs determinants or rank arguments);
+   - fastdiag_apply / fastdiag_apply_mat are not exercised by the correspondence case files (the
+     implementation's U, lambda come from LAPACK and are not exactly representable in general); they are
+     covered by Examples.v and, numerically, by the exact residual check of the fastdiag solver cases;
    - kronecker.apply_kronecker's own dispatch (all ndarray -> dense, else aslinearoperator + linops)
      has no separate theorem: it is kron_dense_spec / kron_linops_spec on the respective branch;
    - adjoints (.H): real operands only, identified with the transpose in the model;
